@@ -514,3 +514,33 @@ func init() {
 		return truth(deepEqualV(xi.t, xi.v, yi.v, 0))
 	}
 }
+
+func init() {
+	// hcldec registers its spec types with encoding/gob at init time (reflection; irrelevant to decoding)
+	externals["encoding/gob.Register"] = func(fr *frame, a []value) value { return nil }
+	externals["encoding/gob.RegisterName"] = func(fr *frame, a []value) value { return nil }
+}
+
+func init() {
+	// Checksums over symbolic bytes (cty hashes set elements with CRC-64): the table-driven
+	// CRC builds nested selects no solver finishes, so the data is made concrete first
+	// (every feasible byte string is enumerated) and the real code is interpreted on it.
+	concretizeData := func(idx int) externalFn {
+		return func(fr *frame, a []value) value {
+			if data, ok := a[idx].([]value); ok {
+				for i, b := range data {
+					if _, sym := b.(symInt); sym {
+						data[i] = concValue(b)
+					}
+				}
+			}
+			return notHandled{}
+		}
+	}
+	externals["hash/crc64.Checksum"] = concretizeData(0)
+	externals["hash/crc64.Update"] = concretizeData(2)
+	externals["hash/crc64.update"] = concretizeData(2)
+	externals["hash/crc32.ChecksumIEEE"] = concretizeData(0)
+	externals["hash/crc32.Checksum"] = concretizeData(0)
+	externals["hash/crc32.Update"] = concretizeData(2)
+}
